@@ -48,7 +48,7 @@ def read_default(s):
             cur = ""
         else:
             cur += ch
-    if cur or rest == "":
+    if cur:
         items.append(cur)
     out = []
     for it in items:
@@ -163,6 +163,13 @@ def main():
             pats = [PATTERNS[0], rng.choice(PATTERNS[1:])]
             for p in pats:
                 case = {"mother": ch["mother"], "decays": ch["decays"], "alts": alts, "patterns": list(p)}
+                if rng.random() < 0.08 and len(ch["decays"]) > 1:
+                    # a decaying particle whose decay has no daughters at all: still a nesting level of its own, "(X -> )"
+                    k = rng.randrange(1, len(ch["decays"]))
+                    dd = [list(d) for d in ch["decays"]]
+                    if dd[k][0] != ch["mother"]:
+                        dd[k][2] = []
+                        case = {"mother": ch["mother"], "decays": dd, "alts": [], "patterns": list(p)}
                 if rng.random() < 0.2:
                     d0 = rng.choice(case["decays"])
                     case["pre"] = [d0[0], [x for x in d0[2] if x not in {d[0] for d in case["decays"]}] + ["zz_pre"]]
